@@ -103,3 +103,71 @@ def group_tail(rep, prog, rule):
             rep.bad(rule, key + "|no-tail", f.loc, "%s processes groups of %d destination rows "
                     "and nothing else: the last h %% %d rows are never written" % (f.name, N, N))
     rep.floor(rule, "group-of-N row wrappers", n, {"x86": 20, "x86-rayon": 20}.get(rep.cfg, 6))
+
+
+def row_length(rep, prog, rule):
+    """rows may be longer than the width (documented contract of ImageView)"""
+    rep.rule(rule, "a row routine of the alpha kernels that pairs a source row with a destination "
+             "row does not rely on the two slices having the same length: the documented contract "
+             "of ImageView / ImageViewMut only promises rows of at least `width` pixels. A routine "
+             "that walks both rows in chunks and then hands the remainder of the SOURCE chunks "
+             "together with the remainder of the DESTINATION chunks to the tail code processes, "
+             "for a source row longer than the destination row, other source pixels in the tail "
+             "than the ones that belong to the destination tail (or none). It is sound only when "
+             "its callers trim both rows to the width first (an index / get(..width) on the rows); "
+             "callers that pass the rows of iter_rows / iter_rows_mut as they come: violation")
+    n = 0
+    for f in sorted(prog.fns.values(), key=lambda x: x.id):
+        if f.kind == "closure" or not re.match(r"^alpha::\w+::(sse4|avx2|neon|wasm32)::", f.name):
+            continue
+        slices = [i for i in range(1, f.arg_count + 1) if re.match(r"^&(mut )?\[", f.local_ty(i) or "")]
+        if len(slices) != 2:
+            continue
+        src = [i for i in slices if not f.local_ty(i).startswith("&mut")]
+        dst = [i for i in slices if f.local_ty(i).startswith("&mut")]
+        if len(src) != 1 or len(dst) != 1:
+            continue
+        sym = Sym(f)
+        ps, pd = ("param", src[0], f.local_name(src[0])), ("param", dst[0], f.local_name(dst[0]))
+
+        def mentions(e, a):
+            return e == a or (isinstance(e, tuple) and any(mentions(x, a) for x in e if isinstance(x, tuple)))
+        src_rem = dst_rem = None
+        for c in f.calls():
+            nm = c.method or short(c.name)
+            if nm == "remainder" and c.args:
+                if mentions(sym.operand(c.args[0], (c.bb, "term")), ps):
+                    src_rem = c
+            if nm == "into_remainder" and c.args:
+                e = sym.operand(c.args[0], (c.bb, "term"))
+                if mentions(e, pd) or any(mentions(sym.rvalue(rv, bb, (bb, j)), pd)
+                                          for l in ([e[1]] if e[0] == "local" else [])
+                                          for (bb, j, rv, w) in f.defs().get(l, [])):
+                    dst_rem = c
+        if src_rem is None or dst_rem is None:
+            continue
+        n += 1
+        rep.touch(f)
+        # do the callers trim the rows?
+        trimmed = True
+        callers = prog.callers().get(f.id, [])
+        for cs in callers:
+            g = cs.fn
+            gs = Sym(g)
+            for a in cs.args[:2]:
+                e = _strip(gs.operand(a, (cs.bb, "term")))
+                txt = fmt(e)
+                if not re.search(r"\b(index|index_mut|get_unchecked|get_unchecked_mut|get|get_mut|split_at|split_at_mut)\b", txt):
+                    trimmed = False
+        key = re.sub(r"::(sse4|avx2|neon|wasm32)::", "::", f.name)
+        if not callers:
+            rep.unk(rule, key, f.loc, "no caller found")
+        elif trimmed:
+            rep.ok(rule, key, f.loc, "callers pass rows cut to the width")
+        else:
+            rep.bad(rule, key + "|remainders-paired", f.loc,
+                    "%s pairs the remainder of the source row's chunks with the remainder of the "
+                    "destination row's chunks and is called with the rows as the views hand them out: "
+                    "a source view whose rows are longer than its width (allowed by the ImageView "
+                    "contract) gets other pixels in the tail than an exact copy would" % f.name)
+    rep.floor(rule, "two-row alpha routines that pair remainders", n, 4)
